@@ -177,6 +177,34 @@ func SelfTest(seed uint64, nSpecs int) int {
 		os.RemoveAll(pd)
 	}
 	fmt.Printf("selftest fidelity: %d projects, canonical simulated run vs unrewritten compiler: %d differ\n", fid, fidBad)
+	// assumption audit (never a verdict): coarse mode treats code between two
+	// synchronisation operations as atomic, i.e. assumes phase 1 is data-race
+	// free. Build the UNREWRITTEN compiler with the race detector and compile a
+	// batch of multi-module projects under the real scheduler.
+	raceBin := filepath.Join(b.S.Dir, "ferret-race")
+	plainSrc := filepath.Join(b.S.Dir, "plain")
+	if out, err := core.Run(plainSrc, core.GoEnv(), 20*time.Minute, "go", "build", "-race", "-o", raceBin, "."); err != nil {
+		fmt.Printf("selftest race audit: skipped (race build failed: %v %s)\n", err, firstLines(out, 2))
+	} else {
+		races, runs := 0, 0
+		for i := 0; i < 30; i++ {
+			r := core.Sub(seed, "selftest", "race", i)
+			proj := GenProject(r, core.Pick(r, []string{"ok", "errors", "cycle"}))
+			pd := b.NewRunDir()
+			projDir, _ := proj.Materialise(filepath.Join(pd, "proj"))
+			env := append(os.Environ(), "FERRET_LIBS_PATH="+b.Libs, "FERRET_AS="+b.Stub, "FERRET_LD="+b.Stub, "AS=", "LD=", fmt.Sprintf("GOMAXPROCS=%d", []int{2, 4, 16}[i%3]), "GORACE=halt_on_error=0")
+			pr := core.RunProc(120*time.Second, pd, env, nil, raceBin, "-o", filepath.Join(pd, "out", "app"), filepath.Join(projDir, proj.Entry))
+			runs++
+			if strings.Contains(string(pr.Stderr), "WARNING: DATA RACE") {
+				races++
+				if races == 1 {
+					fmt.Printf("ASSUMPTION-BROKEN: the race detector reports a data race in the unrewritten compiler:\n%s\n", firstLines(string(pr.Stderr), 30))
+				}
+			}
+			os.RemoveAll(pd)
+		}
+		fmt.Printf("selftest race audit: %d real-scheduler compiles of multi-module projects with -race: %d reported a data race\n", runs, races)
+	}
 	fmt.Printf("selftest: %.0fs\n", time.Since(t0).Seconds())
 	if bad > 0 || fidBad > 0 {
 		return 2
